@@ -71,7 +71,8 @@ func apiErr(kind, resource, name string) error {
 // nil while it still exists) and disappears when the environment says so. Only Create/Delete/Get are overridden.
 type provider struct {
 	*fake.CloudProvider
-	s *sut
+	s     *sut
+	plain bool // alternate the two shapes of a generic Create error (CreateError / plain error with a long message)
 }
 
 func (p *provider) Create(_ context.Context, nc *v1.NodeClaim) (*v1.NodeClaim, error) {
@@ -83,10 +84,11 @@ func (p *provider) Create(_ context.Context, nc *v1.NodeClaim) (*v1.NodeClaim, e
 		case "KConflict":
 			return nil, cloudprovider.NewNodeClassNotReadyError(errors.New("injected: node class not ready"))
 		}
-		if p.s.w.Now%2 == 0 {
-			return nil, cloudprovider.NewCreateError(errors.New("injected create error"), "InjectedReason", strings.Repeat("long message ", 30))
+		p.plain = !p.plain
+		if !p.plain {
+			return nil, cloudprovider.NewCreateError(errors.New("injected create error"), "InjectedReason", "injected create error")
 		}
-		return nil, errors.New("injected create error")
+		return nil, errors.New("injected create error: " + strings.Repeat("long message ", 30))
 	}
 	p.s.eff("EProvCreate true")
 	if instAbsent(p.s.inst) {
